@@ -62,7 +62,7 @@ func (a AnonymousFlattenMangler) unmangleStruct(sf reflect.StructField, fvs []Fi
 	allNil := true
 	for i := 0; i < sf.Type.NumField(); i++ {
 		oft := sf.Type.Field(i)
-		if oft.Name == fvs[fvsIdx].Field.Name {
+		if fvsIdx < len(fvs) && oft.Name == fvs[fvsIdx].Field.Name {
 			out.Field(i).Set(fvs[fvsIdx].Value)
 			switch fvs[fvsIdx].Value.Kind() {
 			// check for nil-able types
